@@ -937,6 +937,21 @@ def spill_body(ctx, tmp):
             arr = np.array(y[k].array, copy=True)
             y[k] = arr
             shadow.append(arr.copy())
+        # prelude: the same site through its two equivalent index forms, read -> write -> read with nothing in between
+        i = int(rng.integers(0, n))
+        fa, fb = (i, i - n) if rng.random() < 0.5 else (i - n, i)
+        _ = np.asarray(y[fa].array)
+        new = shadow[i] * 1.7 - 0.02
+        y[fb] = new
+        shadow[i] = np.array(new, copy=True)
+        got = np.asarray(y[fa].array)
+        ctx.count("spill_accessor_reads", 2)
+        ctx.count("spill_accessor_writes")
+        if got.shape != shadow[i].shape or not np.array_equal(got, shadow[i]):
+            ctx.violate("spill|accessor|read-does-not-return-the-tensor-stored-last", site=i, index_form=fa, step="prelude")
+            del y
+            gc.collect()
+            return
         nbad = 0
         held = []          # (site, tensor object handed out, its values at that moment): as in memory, a tensor that was
         #                    handed out keeps its values when the site is rewritten afterwards
